@@ -128,8 +128,8 @@ PROPS = {
                  "empty-claimed positions disappear; unknown-position / non-positive-change calls and every error are no-ops. Model tied to the Go code by byte-exact differential run.",
  },
  "C08": {
-  "modules": ["OsmoVerif.Props.C08", "OsmoVerif.Props.C08Inc"],
-  "min_theorems": 52,
+  "modules": ["OsmoVerif.Props.C08", "OsmoVerif.Props.C08Inc", "OsmoVerif.Props.C08IncHist"],
+  "min_theorems": 90,
   "fingerprints": ["CL.Keeper_*", "CL.SwapState_*"],
   "engines": [{"name": "clmath", "kind": "pure", "n": {"quick": 30000, "thorough": 400000}, "shards": {"quick": 2, "thorough": 16}},
               {"name": "cl", "kind": "app", "n": {"quick": 1500, "thorough": 20000}, "shards": {"quick": 4, "thorough": 16}, "env": NO_EXPORT_IMPORT}],
@@ -157,8 +157,15 @@ PROPS = {
                   "preserve it), credited x liquidity <= record decrease x scale per pass, records only decrease over histories and never exceed what was funded, no liquidity => no "
                   "emission but LastLiquidityUpdate advances, unmet uptime => nothing collected, forfeits leave the incentive address only when < 1 unit of liquidity stays active, "
                   "collect = claimable query, owner only, transfer changes nothing, the incentive layer is conservative over the fee layer",
-                  "PARTIAL: the history-level induction for the uptime accumulators (growth inside over whole histories, sum of paid + claimable <= emitted over histories, second "
-                  "incentive claim = 0) is not a theorem: oracles incentives:* on the real keeper"],
+                  "uptime incentives over HISTORIES (Props/C08IncHist, induction over arbitrary message lists of the full model): invariant IncInv on every reachable state "
+                  "(records = positions' liquidity per accumulator, total shares, trackers exactly on boundary ticks, normal forms, join times); uptime growth inside over a history = "
+                  "start + accumulator growth of the messages that happened while the tick was in range; claim split by age against the join time fixed at creation (unmet uptime "
+                  "never collected along any history); twins (incl. created in the same block) equal; never-in-range earns nothing; SUM bound: entitlements + records' remaining x factor "
+                  "<= incentive balance x 1e18 x factor + 3e18 per message, hence sum of claimable <= incentive address balance for 3(#messages+#positions) < factor; emission accounting "
+                  "per record: remaining = max(initial - sum of slots, 0), slot = floor(ns*1e9*rate/1e18) only for syncing messages with >= 1 unit of liquidity after the start; idle time "
+                  "emits nothing and does not consume the record",
+                  "second incentive claim = 0; PARTIAL: the dust bound in the other direction for incentives (forfeits of collectIncentives stay in the address by design) and the "
+                  "converse of the slot characterisation up to the three silent Dec-overflow skips are not theorems: oracles incentives:* on the real keeper"],
   "explanation": "history model FOp/applyF/runF over CLFees.Fees; the pool component of every message is exactly the CLPool operation (C07's Inv carries over); invariant FullInv "
                  "by induction; growth inside expressed as insideI(cur, G, out(lower), out(upper)) with three laws (grow, flip on crossing, keep in bucket) and the fold over the swap "
                  "step trace (TraceOK derived from C07's loop invariant); records and claims by unfolding the accumulator calls",
@@ -477,8 +484,8 @@ PROPS = {
                  "invariants, remaining history; probes for the audited order-dependent sites.",
  },
  "C01": {
-  "modules": ["OsmoVerif.Props.C01"],
-  "min_theorems": 25,
+  "modules": ["OsmoVerif.Props.C01", "OsmoVerif.Props.C08IncHist"],
+  "min_theorems": 60,
   "fingerprints": ["CL.*"],
   "engines": [{"name": "cl", "kind": "app", "n": {"quick": 2000, "thorough": 30000}, "shards": {"quick": 4, "thorough": 16}, "env": NO_EXPORT_IMPORT},
               {"name": "clmath", "kind": "pure", "n": {"quick": 20000, "thorough": 300000}, "shards": {"quick": 2, "thorough": 16}}],
@@ -487,7 +494,8 @@ PROPS = {
           "balances) runs every few ops and at the end of every history; distinct = distinct op lines",
   "trusted_base": ["C03 rounding theorems", "C07 bookkeeping invariant", "cosmos-sdk bank"],
   "assumptions": ["theorems cover the PRINCIPAL balances of the pool address and the spread-fee transfers over the pool state machine (bit-exact with the keeper); the spread-reward "
-                  "and incentive balances covering what is claimable (accumulators are not in the model) are decided by the engine oracle together with C08/C15",
+                  "balance covering what is claimable is C08.spread_reward_solvency, the incentive address balance covering every claim and every record's remaining amount is "
+                  "C08IncHist.incentive_solvency / total_claimable_incentives_le_balance (both over the layered models CLFees / CLInc, compared with the keeper after every op), plus the engine oracle",
                   "a withdrawal is shown never to be blocked by FUNDS; bit-length overflow of the amount arithmetic is excluded only by the engine's ranges",
                   "positions bound by a lock are outside the model"],
   "explanation": "potential argument in rationals: V0/V1 = sum over positions of the exact curve amounts at the current sqrt price; every op keeps bal >= V (deposits round up, "
